@@ -27,21 +27,21 @@ COMPARE_DISPATCH = {
 
 def run(ctx) -> None:
     ctx.rule("a.compare-kernels", "every vector built by a comparison kernel has the constant non-nullable bool dtype and "
-                                  "elements `False if <a None operand> else bool(op(x, y))` with x from self, y from other", 8)
+                                  "elements `False if <a None operand> else bool(op(x, y))` with x from self, y from other", 2)
     ctx.rule("a.dispatch", "each comparison/logical dunder forwards to _elementwise_compare with the operator of its name", 12)
     ctx.rule("b.int-index", "v[int] returns self._underlying[key] (tuple indexing) - same in Row / Table column access", 1)
     ctx.rule("b.slice-integrity", "v[slice] passes self._underlying[key] to copy() and nothing on the data flow to the "
                                   "constructor selects an alternative by TRUTH VALUE (an empty result is falsy): a parameter "
                                   "with default None that carries data must be tested with `is None` (R-FALSY)", 2)
     ctx.rule("c.mask", "both mask branches keep exactly the positions where the mask element is true: filter over "
-                       "zip(self, key, strict=True) by the mask element, after a length guard, through copy(name=self._name)", 2)
-    ctx.rule("c.index-list", "index-vector / index-list branches gather self[x] for x in key, in key order, through copy(name=self._name)", 2)
+                       "zip(self, key, strict=True) by the mask element, after a length guard, through copy(name=self._name)", 1)
+    ctx.rule("c.index-list", "index-vector / index-list branches gather self[x] for x in key, in key order, through copy(name=self._name)", 1)
     ctx.rule("d.dead-raise", "every `raise` of the indexing code is reachable (an unreachable raise is a rejection the author "
-                             "believed in but the code does not enforce)", 8)
+                             "believed in but the code does not enforce)", 4)
     ctx.rule("d.must-append", "multi-name selection: every feasible path through one iteration of `for name in key` appends "
                               "a column or raises (flag-sensitive); the exact stored-name scan comes first", 2)
     ctx.rule("d.dispatch-exhaustive", "Vector.__getitem__ ends by raising for unsupported key types", 1)
-    ctx.rule("e.uniform-rows", "every row-selection branch of Table.__getitem__ maps the SAME key over ALL columns, unfiltered, in order", 4)
+    ctx.rule("e.uniform-rows", "every row-selection branch of Table.__getitem__ maps the SAME key over ALL columns, unfiltered, in order", 2)
     ctx.rule("f.name-resolution", "string indexing: exact stored name first over all columns, missing name raises (R-NAME)", 2)
     ctx.section("compare", _compare, ctx)
     ctx.section("index", _index, ctx)
@@ -253,65 +253,80 @@ def _falsy_uses(prog, f: FuncInfo) -> List[str]:
 
 # ---------------------------------------------------------------------------------------------
 def _mask(ctx) -> None:
+    """Vector.__getitem__ with a mask / an index list, decided on the return events of the symx log: every `self.copy(...)` result
+    is classified by what its data are (slice / mask / gather of self's own elements)."""
+    from ..sites2 import comp_parts, same_elements_of
+    from ..symx import Interp as SInterp
+    from ..symx import flatten_conds, kw, show, show_conds, subterms
     prog = ctx.prog
     f = prog.func("vector.Vector.__getitem__")
-    key = f.params[1]
-    masks, gathers = [], []
-    for s in f.body:
-        if not isinstance(s, ast.If):
+    it = SInterp(prog, f)
+    SELF = ("param", f.params[0])
+    keyp = ("param", f.params[1])
+    stor = ("attr", SELF, "_underlying")
+    rets = [e for e in it.events if e.kind == "return" and e.depth == 0]
+    masks, gathers, others = [], [], []
+    for e in rets:
+        t = e.term
+        if not (t[0] == "call" and t[1] == ("attr", SELF, "copy") and t[2]):
             continue
-        t = short(s.test)
-        if "bool" in t and (f"isinstance({key}, Vector)" in t or f"isinstance({key}, list)" in t):
-            masks.append(s)
-        elif "int" in t and (f"isinstance({key}, Vector)" in t or f"isinstance({key}, list)" in t) and "isinstance(" + key + ", int)" != t:
-            gathers.append(s)
-    if len(masks) != 2 or len(gathers) != 2:
-        raise AnalysisError(f"Vector.__getitem__: expected 2 mask and 2 index-list branches, found {len(masks)}/{len(gathers)}")
-    for i, s in enumerate(masks):
-        problems = []
-        guard = [x for x in s.body if isinstance(x, ast.If) and any(isinstance(b, ast.Raise) for b in x.body)]
-        if not (guard and short(guard[0].test) in (f"len(self) != len({key})", f"len({key}) != len(self)")):
-            problems.append("no length guard `len(self) != len(key)` before the mask is applied")
-        r = s.body[-1]
-        ok = False
-        if isinstance(r, ast.Return) and isinstance(r.value, ast.Call) and attr_chain(r.value.func) == ["self", "copy"] and r.value.args:
-            g = r.value.args[0]
-            if isinstance(g, ast.GeneratorExp) and len(g.generators) == 1:
-                gen = g.generators[0]
-                if isinstance(gen.target, ast.Tuple) and len(gen.target.elts) == 2 and all(isinstance(e, ast.Name) for e in gen.target.elts):
-                    x, y = gen.target.elts[0].id, gen.target.elts[1].id
-                    it = gen.iter
-                    if isinstance(it, ast.Call) and short(it.func) == "zip" and [short(a) for a in it.args] == ["self", key] \
-                            and kwarg(it, "strict") is not None and short(kwarg(it, "strict")) == "True":
-                        if isinstance(g.elt, ast.Name) and g.elt.id == x and len(gen.ifs) == 1 and short(gen.ifs[0]) == y:
-                            ok = True
-                        else:
-                            problems.append(f"the mask keeps `{short(g.elt)}` where `{' and '.join(short(c) for c in gen.ifs)}`; expected the "
-                                            f"element `{x}` where the mask element `{y}` is true")
-                    else:
-                        problems.append(f"mask pairs `{short(it, 50)}`, expected zip(self, {key}, strict=True)")
-            nm = kwarg(r.value, "name")
-            if nm is None or short(nm) != "self._name":
-                problems.append("the masked result does not keep self's name")
-        if not ok and not problems:
-            problems.append(f"mask branch returns `{short(r, 70)}`")
-        ctx.ob("c.mask", f, f"mask:{i + 1}", not problems, "mask keeps exactly the true positions, in order, dtype and name kept", s,
-               message="; ".join(problems))
-    for i, s in enumerate(gathers):
-        problems = []
-        r = s.body[-1]
-        if not (isinstance(r, ast.Return) and isinstance(r.value, ast.Call) and attr_chain(r.value.func) == ["self", "copy"]
-                and r.value.args and cshort(r.value.args[0]) == f"(self[_0] for _0 in {key})"):
-            problems.append(f"index branch returns `{short(r, 70)}`, expected self.copy((self[x] for x in {key}), name=self._name)")
+        data = t[2][0]
+        se = same_elements_of(it, data)
+        cp = comp_parts(it, data)
+        if se and se[0] == SELF and se[1] == "mask":
+            masks.append((e, cp))
+        elif se and se[0] == SELF and se[1] == "gather":
+            gathers.append((e, cp))
+        elif se and se[0] == SELF and se[1] in ("slice/index", "identity"):
+            continue
+        elif cp is not None and len(cp[0]) == 1 and it.loops[cp[0][0]].domain is not None and it.loops[cp[0][0]].domain[0] == "tuple":
+            masks.append((e, cp))        # a zip-based selection that is not a clean mask: judged below
         else:
-            nm = kwarg(r.value, "name")
-            if nm is None or short(nm) != "self._name":
-                problems.append("the gathered result does not keep self's name")
-        ctx.ob("c.index-list", f, f"gather:{i + 1}", not problems, "index list gathers self[x] in key order", s, message="; ".join(problems))
-    last = f.body[-1]
-    ctx.ob("d.dispatch-exhaustive", f, "final-raise", isinstance(last, ast.Raise) and "SerifTypeError" in short(last),
-           "unsupported key types raise SerifTypeError", last,
-           message=f"Vector.__getitem__ ends with `{short(last, 60)}`; an unsupported key type would return None")
+            others.append(e)
+    if not masks or not gathers:
+        raise AnalysisError(f"Vector.__getitem__: expected mask and index-list results, found {len(masks)} mask / {len(gathers)} index-list "
+                            f"result(s)")
+    ln_self = ("call", ("name", "len"), (SELF,), ())
+    for i, (e, cp) in enumerate(masks):
+        problems = []
+        (L,), extra, v, ev = cp
+        lp = it.loops[L]
+        doms = lp.domain[1] if lp.domain is not None and lp.domain[0] == "tuple" else ()
+        strict = lp.iter is not None and lp.iter[0] == "call" and dict(lp.iter[3]).get("strict") == ("const", "bool", True)
+        if not (len(doms) == 2 and doms[0] in (SELF, stor) and any(x == keyp for x in subterms(doms[1])) and strict):
+            problems.append(f"mask pairs `{show(lp.iter, it)[:50]}`, expected zip(self, {f.params[1]}, strict=True)")
+        else:
+            x, y = ("elem", doms[0], L), ("elem", doms[1], L)
+            if v != x or flatten_conds(extra) != [(y, True)]:
+                problems.append(f"the mask keeps `{show(v, it)[:40]}` where `{show_conds(extra, it)[:50]}`; expected the element of self where "
+                                f"the mask element is true")
+            guard = [c for c in flatten_conds(e.conds) if c[0][0] == "cmp" and c[0][1] == "Eq" and ln_self in (c[0][2], c[0][3]) and c[1]
+                     and ("call", ("name", "len"), (doms[1],), ()) in (c[0][2], c[0][3])]
+            if not guard:
+                problems.append("no length guard `len(self) != len(key)` before the mask is applied")
+        if kw(e.term, "name") != ("attr", SELF, "_name"):
+            problems.append("the masked result does not keep self's name")
+        ctx.ob("c.mask", f, f"mask:{i + 1}", not problems, "mask keeps exactly the true positions, in order, dtype and name kept", e.node,
+               message="; ".join(problems))
+    for i, (e, cp) in enumerate(gathers):
+        problems = []
+        (L,), extra, v, ev = cp
+        lp = it.loops[L]
+        if not (lp.iter is not None and any(x == keyp for x in subterms(lp.iter)) and not extra and v[0] == "sub" and v[1] in (SELF, stor)
+                and v[2] == ("elem", lp.iter, L)):
+            problems.append(f"index branch returns `{show(e.term, it)[:70]}`, expected self.copy((self[x] for x in {f.params[1]}), name=self._name)")
+        elif kw(e.term, "name") != ("attr", SELF, "_name"):
+            problems.append("the gathered result does not keep self's name")
+        ctx.ob("c.index-list", f, f"gather:{i + 1}", not problems, "index list gathers self[x] in key order", e.node, message="; ".join(problems))
+    for e in others:
+        ctx.ob("c.index-list", f, f"other:{getattr(e.node, 'lineno', 0) - f.lineno}", False, "", e.node,
+               message=f"Vector.__getitem__ returns `{show(e.term, it)[:70]}`: a copy whose data are neither a slice, a mask nor an index "
+                       f"gather of self's own elements")
+    raises = [e for e in it.events if e.kind == "raise" and e.depth == 0 and not e.loops and e.term[0] == "call"
+              and e.term[1] == ("name", "SerifTypeError")]
+    ok = not it.falls_through and bool(raises) and not any(e.term == ("const", "NoneType", None) for e in rets)
+    ctx.ob("d.dispatch-exhaustive", f, "final-raise", ok, "unsupported key types raise SerifTypeError", f.node,
+           message="Vector.__getitem__ can fall off its end (or return None) for an unsupported key type instead of raising SerifTypeError")
 
 
 # ---------------------------------------------------------------------------------------------
